@@ -454,6 +454,18 @@ def make_case(seed, silent=False, ranked=False, negx=False, globx=False, oddx=Fa
         if nrng.random() < 0.3:
             rb_.explicit_cd, rb_.cant_delete = [True], [True]
         gens[b]["acl"] = list(gens[b]["acl"]) + [rb_]
+    if negx and len(gens) >= 1:
+        # a generator whose ACL names a command in its negated form only (`undo dhcp enable`) and which yields the positive command: the line
+        # is covered through the rule's other form (own family `pv`, no other generator names it)
+        prng_ = random.Random(seed ^ 0x9051F)
+        from annet.vendors import registry_connector as _rc2
+        pfx2 = _rc2.get()[vname].reverse
+        c_ = prng_.randrange(len(gens))
+        w2 = prng_.choice(["dhcp-pv", "ntp-pv", "ospf-pv", "nd-pv", "uplink-pv", "pv"])
+        k2 = prng_.choice(KEYS)
+        gens[c_]["program"].append(["y", "%s %s" % (w2, k2)])
+        gens[c_]["paths"] = [list(x_) for x_ in ref_paths(gens[c_]["program"])]
+        gens[c_]["acl"] = list(gens[c_]["acl"]) + [A.AclRule(prng_.choice(["%s %s %s" % (pfx2, w2, k2), "%s %s *" % (pfx2, w2)]))]
     if vname == "huawei" and rng.random() < 0.3:
         crng = random.Random(seed ^ 0xC0)
         for g in gens:
